@@ -391,6 +391,7 @@ func init() {
 			{ID: "C01.R6", Min: 3, Desc: "pause gate: user pop under a fresh not-paused observation; system pop not gated by pause", Fn: c01PauseGate},
 			{ID: "C01.R7", Min: 2, Desc: "no spin / no lost wake-up: re-arm only with fresh evidence of eligible work", Fn: c01NoSpin},
 			{ID: "C01.R8", Min: 2, Desc: "resume wakes: every un-pausing write is followed by the election and a spawn; Pause only pauses", Fn: c01Resume},
+			{ID: "C01.R10", Min: 20, Desc: "the queue loses and duplicates nothing under concurrent senders: ring storage and indices only under the queue lock (C02.R1)", Fn: c02Ring},
 			{ID: "C01.R9", Min: 10, Desc: "status, paused and both counters are accessed only through sync/atomic", Fn: c01Atomics},
 		},
 	})
